@@ -242,4 +242,80 @@ theorem width_bound (t : ClassTables) (width iiLen siLen : Nat) :
           · subst h; exact this.1
           · exact this.2 l' h
 
+/-! ### a sharper form of the width bound: a line that does not fit is ONE NON-BLANK chunk -/
+
+theorem dropTrail_fits' (t) (w) (cur : List Str) (h : lenSum cur ≤ w ∨ cur.length ≤ 1) :
+    lenSum (dropTrail t cur) ≤ w ∨ dropTrail t cur = [] ∨ ∃ c, dropTrail t cur = [c] ∧ isBlank t c = false := by
+  rcases h with h | h
+  · left
+    rcases dropTrail_fits t w cur (Or.inl h) with h' | h'
+    · exact h'
+    · -- at most one chunk left: it is part of `cur`, which fits
+      unfold dropTrail
+      cases hl : cur.getLast? with
+      | none => simpa using h
+      | some l =>
+        by_cases hb : isBlank t l = true
+        · simp only [hb, if_true]
+          obtain ⟨ys, rfl⟩ := exists_concat_of_getLast cur l hl
+          simp [lenSum_append] at h ⊢; omega
+        · simpa [hb] using h
+  · match cur, h with
+    | [], _ => right; left; simp [dropTrail]
+    | [c], _ =>
+      by_cases hb : isBlank t c = true
+      · right; left; simp [dropTrail, hb]
+      · right; right; exact ⟨c, by simp [dropTrail, hb], by simpa using hb⟩
+    | _ :: _ :: _, h => simp at h
+
+/-- one line step, sharp: the emitted line fits, or is empty (not emitted), or is one non-blank chunk -/
+theorem lineStep_fits' (t : ClassTables) (width iiLen siLen : Nat) (first : Bool) (c0 : Str) (cs0 : List Str) :
+    lenSum (lineStep t width iiLen siLen first c0 cs0).1 ≤ width - (if first then iiLen else siLen) ∨
+      (lineStep t width iiLen siLen first c0 cs0).1 = [] ∨
+      ∃ c, (lineStep t width iiLen siLen first c0 cs0).1 = [c] ∧ isBlank t c = false := by
+  unfold lineStep
+  generalize width - (if first = true then iiLen else siLen) = w
+  generalize dropLead t first c0 cs0 = chunks1
+  have hfit : lenSum (takeFit w [] 0 chunks1).1 ≤ w :=
+    takeFit_fits w chunks1 [] 0 (by simp [lenSum]) (Nat.zero_le _)
+  exact dropTrail_fits' t w _ (longWord_fits w (takeFit w [] 0 chunks1) hfit)
+
+/-- **Width bound, sharp**: every emitted line fits its width (chunk lengths ≤ width − indent) or is one
+non-blank chunk. The first emitted line is measured with `initial_indent`. -/
+theorem width_bound' (t : ClassTables) (width iiLen siLen : Nat) :
+    ∀ (fuel : Nat) (first : Bool) (cs : List Str),
+      match wrapCur t width iiLen siLen fuel first cs with
+      | [] => True
+      | l :: ls => (lenSum l ≤ width - (if first then iiLen else siLen) ∨ ∃ c, l = [c] ∧ isBlank t c = false) ∧
+                   ∀ l' ∈ ls, (lenSum l' ≤ width - siLen ∨ ∃ c, l' = [c] ∧ isBlank t c = false) := by
+  intro fuel
+  induction fuel with
+  | zero => intro first cs; simp [wrapCur]
+  | succ fuel ih =>
+    intro first cs
+    cases cs with
+    | nil => simp [wrapCur]
+    | cons c0 cs0 =>
+      have hf := lineStep_fits' t width iiLen siLen first c0 cs0
+      simp only [wrapCur]
+      by_cases hemp : (lineStep t width iiLen siLen first c0 cs0).1.isEmpty = true
+      · rw [if_pos hemp]; exact ih first _
+      · rw [if_neg hemp]
+        have := ih false (lineStep t width iiLen siLen first c0 cs0).2
+        show (_ ∧ _)
+        refine ⟨?_, ?_⟩
+        · rcases hf with h | h | h
+          · exact Or.inl h
+          · rw [h] at hemp; simp at hemp
+          · exact Or.inr h
+        · intro l' hl'
+          cases hrec : wrapCur t width iiLen siLen fuel false (lineStep t width iiLen siLen first c0 cs0).2 with
+          | nil => rw [hrec] at hl'; simp at hl'
+          | cons a as =>
+            rw [hrec] at this hl'
+            simp only [Bool.false_eq_true, if_false] at this
+            rcases List.mem_cons.mp hl' with h | h
+            · subst h; exact this.1
+            · exact this.2 l' h
+
 end GapicModel.Lemmas.Textwrap
